@@ -54,6 +54,25 @@ theorem predicate_accepts_every_model_history (cap : Option Nat) (hh : Bool) (op
     ∃ st, ckOps cap hh {} ops (modelRun cap hh ops) = .ok st :=
   ckOps_accepts_model cap hh ops
 
+/-- … and on *closed* histories (no handle left, the worker not parked inside the wrapped sink: what the
+harness's closing drops and gate openings establish) the whole predicate accepts the model, including the
+closing clauses "every accepted metric was handed over" and "the wrapped sink was dropped" — for every
+capacity other than 0 (rendezvous channel: outside the liveness claims, see C09). -/
+theorem predicate_accepts_every_closed_model_history (cap : Option Nat) (hh : Bool) (ops : List HOp)
+    (hcap : cap ≠ some 0) (hclosed : closedAfter cap hh ops) :
+    ckHistory cap hh {} ops (modelRun cap hh ops) = .ok () :=
+  ckHistory_accepts_closed_model cap hh ops hcap hclosed
+
+-- non-vacuity of `closedAfter`: two metrics (one failing, with a handler), a clone, both handles dropped
+example : closedAfter (some 1) true
+    [.emit 0 "aa" 1, .emit 0 "bb" 1, .fin (.err 0) 3, .clone 0, .drop 0, .fin .ok 0, .drop 1] := by
+  refine ⟨rfl, ?_⟩
+  have h : (modelFinal (some 1) true
+    [.emit 0 "aa" 1, .emit 0 "bb" 1, .fin (.err 0) 3, .clone 0, .drop 0, .fin .ok 0, .drop 1]).phase = .exited := rfl
+  intro m hm
+  rw [h] at hm
+  cases hm
+
 /-- the fuel of the quiescent schedule always suffices: after `settleAll` the worker is blocked
 (inside the wrapped sink, in `recv()` on an empty queue, or exited) -/
 theorem quiescent_schedule_settles (s : St M) : workerStep (settleAll s) = none :=
